@@ -668,6 +668,21 @@ func e2e(id, rest string, out func(string, ...interface{}), st *vh.Stats) {
 	origPayload, _ := hooks.ReadSnapshotFile(fs.PathJoin(srcDir, ssFile), fs)
 
 	// ---- trials: one file of the export changed, or a bad member list
+	// existing data of a host other than the source host: made by one import
+	// of the intact export for that host alone
+	preDirs := map[uint64]string{1: dir1}
+	hostData := func(self uint64, raddr string) string {
+		if d, ok := preDirs[self]; ok {
+			return d
+		}
+		d := fmt.Sprintf("%s/pre%d", w.root, self)
+		var e error
+		if pp := vh.Catch(func() { e = tools.ImportSnapshot(w.nhConfig(d, raddr), srcDir, map[uint64]string{self: raddr}, self) }); pp != "" || e != nil {
+			d = ""
+		}
+		preDirs[self] = d
+		return d
+	}
 	if body != "" {
 		for n, ts := range strings.Split(body, " ; ") {
 			t := parseTrial(ts)
@@ -679,7 +694,16 @@ func e2e(id, rest string, out func(string, ...interface{}), st *vh.Stats) {
 			copyTree(fs, srcDir, xdir)
 			applyCorruption(fs, xdir, t.corruption, ssFile, extFile)
 			tdir := fmt.Sprintf("%s/t%d", w.root, n)
-			copyTree(fs, dir1, tdir) // the host's existing data
+			// the host's existing data (a trial with the address of no host at all,
+			// e.g. "elsewhere:1", runs against the source host's directory: the address
+			// check comes first)
+			base := dir1
+			if t.self != 1 && t.raddr == addrOf(t.self) {
+				if d := hostData(t.self, t.raddr); d != "" {
+					base = d
+				}
+			}
+			copyTree(fs, base, tdir)
 			before := digestTree(fs, tdir)
 			beforeT := map[string][]byte{}
 			listTree(fs, tdir, beforeT)
@@ -691,6 +715,9 @@ func e2e(id, rest string, out func(string, ...interface{}), st *vh.Stats) {
 			st.Count("e2e.trial." + strings.SplitN(t.corruption, ":", 2)[0] + "." + map[bool]string{true: "refused", false: "accepted"}[refused])
 			if refused {
 				out("trial %d %s REFUSED", n, t.name)
+				if t.corruption == "none" && t.name == "intact" {
+					st.Violation(id, fmt.Sprintf("VALID-IMPORT-REFUSED: intact export with a valid list refused: %v %s", ierr, pp))
+				}
 				if before != after {
 					kind := "error"
 					if pp != "" {
@@ -703,6 +730,22 @@ func e2e(id, rest string, out func(string, ...interface{}), st *vh.Stats) {
 				}
 			} else {
 				out("trial %d %s ACCEPTED", n, t.name)
+				// the property's refusal conditions, evaluated by the harness itself
+				if a, ok := t.members[t.self]; !ok || a != t.raddr {
+					st.Violation(id, "INVALID-LIST-ACCEPTED: import accepted although the importing replica is not listed at its own address (trial "+t.name+")")
+				}
+				for k, a := range t.members {
+					o, isV := oldss.Membership.Addresses[k]
+					_, isN := oldss.Membership.NonVotings[k]
+					_, isW := oldss.Membership.Witnesses[k]
+					if (isV && o != a) || isN || isW || oldss.Membership.Removed[k] {
+						st.Violation(id, fmt.Sprintf("INVALID-LIST-ACCEPTED: import accepted although the list re-admits a removed replica or changes the address/kind of member %d (trial %s)", k, t.name))
+					}
+				}
+				switch strings.SplitN(t.corruption, ":", 2)[0] {
+				case "del-snap", "extra-snap", "del-meta", "flip-meta", "trunc-meta", "flip-crc", "del-ext":
+					st.Violation(id, "CORRUPT-EXPORT-ACCEPTED: import accepted an export with a missing file / a checksum that does not match ("+t.corruption+")")
+				}
 				if strings.HasPrefix(t.corruption, "flip-ext") {
 					st.Violation(id, "EXT-FILE-CORRUPTION-UNDETECTED: a bit flipped in an external file of the export is accepted by ImportSnapshot (external files carry no checksum)")
 				}
